@@ -3,6 +3,7 @@ import Mathlib.Tactic.Linarith
 import Mathlib.Tactic.Positivity
 import ElexModel.Core.Boot
 import ElexModel.Core.BootAgg
+import ElexModel.Core.BootErr
 import ElexModel.Lemmas.Quantile
 import ElexModel.Gen.C06
 
@@ -488,3 +489,88 @@ example :
   decide +kernel
 
 end ElexModel.Boot
+
+/-! ### the contest-effect decomposition of the bootstrap (`_estimate_epsilon`, `_estimate_delta`; model `Core/BootErr`)
+
+Every training residual is split into the effect of its contest and a unit-level rest.  For every assignment of units to contests and
+every residual: the split is exact, the rests of a contest with at least two units sum to zero (so estimating the effect again on the
+rests gives zero: the decomposition is idempotent), a contest with a single unit gets no effect (its residual is its rest), and the
+effect of a contest is a function of the residuals of its own units only. -/
+
+namespace ElexModel.BootErr
+open ElexModel
+
+theorem decomposition (rs : List (ℕ × ℚ)) (i : ℕ) (h : i < rs.length) :
+    (rs[i]).2 = epsilon rs (rs[i]).1 + (delta rs)[i]'(by simp [delta, deltaPairs, h]) := by
+  simp [delta, deltaPairs]
+
+theorem contestCount_map (c : ℕ) (f : ℕ → ℚ) (rs : List (ℕ × ℚ)) :
+    contestCount c (rs.map (fun p => (p.1, p.2 - f p.1))) = contestCount c rs := by
+  induction rs with
+  | nil => rfl
+  | cons p t ih => obtain ⟨k, r⟩ := p; simp [contestCount, ih]
+
+theorem contestSum_map (c : ℕ) (f : ℕ → ℚ) (rs : List (ℕ × ℚ)) :
+    contestSum c (rs.map (fun p => (p.1, p.2 - f p.1))) = contestSum c rs - (contestCount c rs : ℚ) * f c := by
+  induction rs with
+  | nil => simp [contestSum, contestCount]
+  | cons p t ih =>
+    obtain ⟨k, r⟩ := p
+    simp only [List.map_cons, contestSum, contestCount, ih]
+    by_cases h : k = c
+    · subst h; simp; ring
+    · simp [h]
+
+/-- **the unit-level rests of a contest with at least two units sum to zero** -/
+theorem delta_sums_to_zero (rs : List (ℕ × ℚ)) (c : ℕ) (h : 2 ≤ contestCount c rs) :
+    contestSum c (deltaPairs rs) = 0 := by
+  unfold deltaPairs
+  rw [contestSum_map c (epsilon rs) rs]
+  unfold epsilon
+  have hn : ¬ contestCount c rs < 2 := by omega
+  simp only [hn, if_false]
+  have hpos : (contestCount c rs : ℚ) ≠ 0 := by
+    have : 0 < contestCount c rs := by omega
+    exact_mod_cast this.ne'
+  field_simp
+  ring
+
+/-- **a contest with fewer than two units gets no effect**: the rests are the residuals -/
+theorem small_contest_no_effect (rs : List (ℕ × ℚ)) (c : ℕ) (h : contestCount c rs < 2) :
+    epsilon rs c = 0 ∧ contestSum c (deltaPairs rs) = contestSum c rs := by
+  have he : epsilon rs c = 0 := by unfold epsilon; simp [h]
+  refine ⟨he, ?_⟩
+  unfold deltaPairs
+  rw [contestSum_map c (epsilon rs) rs, he]; ring
+
+/-- **idempotence**: the contest effects of the rests vanish, for every contest -/
+theorem epsilon_of_delta (rs : List (ℕ × ℚ)) (c : ℕ) : epsilon (deltaPairs rs) c = 0 := by
+  unfold epsilon
+  have hc : contestCount c (deltaPairs rs) = contestCount c rs := contestCount_map c (epsilon rs) rs
+  by_cases h : contestCount c rs < 2
+  · simp [hc, h]
+  · have h2 : 2 ≤ contestCount c rs := by omega
+    simp only [hc, h, if_false, delta_sums_to_zero rs c h2, zero_div]
+
+theorem contest_filter (c : ℕ) (rs : List (ℕ × ℚ)) :
+    contestSum c rs = contestSum c (rs.filter (fun p => p.1 = c)) ∧
+    contestCount c rs = contestCount c (rs.filter (fun p => p.1 = c)) := by
+  induction rs with
+  | nil => exact ⟨rfl, rfl⟩
+  | cons p t ih =>
+    obtain ⟨k, r⟩ := p
+    by_cases h : k = c
+    · subst h; simp [contestSum, contestCount, ih.1, ih.2]
+    · simp [h, contestSum, contestCount, ih.1, ih.2]
+
+/-- **the effect of a contest depends on its own units only**: two training sets that agree on the units of contest `c` (whatever else
+    they contain, in whatever positions) give the same effect for `c` -/
+theorem epsilon_local (rs rs' : List (ℕ × ℚ)) (c : ℕ)
+    (h : rs.filter (fun p => p.1 = c) = rs'.filter (fun p => p.1 = c)) : epsilon rs c = epsilon rs' c := by
+  unfold epsilon
+  rw [(contest_filter c rs).1, (contest_filter c rs).2, (contest_filter c rs').1, (contest_filter c rs').2, h]
+
+example : epsilon [(0, 1), (1, 5), (0, 3), (2, 7), (2, 1), (2, -2)] 0 = 2 ∧ epsilon [(0, 1), (1, 5), (0, 3)] 1 = 0 ∧
+    delta [(0, 1), (1, 5), (0, 3), (2, 7), (2, 1), (2, -2)] = [-1, 5, 1, 5, -1, -4] := by decide +kernel
+
+end ElexModel.BootErr
